@@ -26,7 +26,7 @@ from ..vloop import virtual_env
 PID = 'C19'
 LEVEL = 'exploration'
 EXHAUSTIVE = True
-RULE = ('complete enumeration of upstream in {absent, unbound, unbound chain of two, unbound with an existing sibling branch, asynchronous, blocking, bound to '
+RULE = ('complete enumeration of upstream in {absent, unbound, unbound chain of two, unbound with an existing sibling branch, asynchronous, blocking, blocking through the background-loop fallback (below the loop-needing node, beside it, below an undeclared source), bound to '
         'another loop, join of bound+unbound in both orders} x node type in {plain without kwargs (map), plain with kwargs (pluck, '
         'sliding_window, union, zip, combine_latest, sink), loop-needing (partition, timed_window, timed_window_unique, '
         'delay, rate_limit, buffer, latest, map_async), 12 source classes} x asynchronous in {None, True, False} x loop '
@@ -43,7 +43,8 @@ NEEDS_KW = ['partition', 'timed_window', 'timed_window_unique', 'delay', 'rate_l
 NEEDS_NOKW = ['map_async']
 SOURCES = ['from_iterable', 'from_periodic', 'from_textfile', 'filenames', 'from_q', 'from_tcp', 'from_http_server',
            'from_process', 'from_kafka', 'FromKafkaBatched', 'from_websocket', 'from_mqtt']
-UPS = ['absent', 'unbound', 'chain', 'sibling', 'async', 'blocking', 'other', 'join', 'join_rev']
+UPS = ['absent', 'unbound', 'chain', 'sibling', 'async', 'blocking', 'other', 'join', 'join_rev', 'fallback', 'fallback_sib',
+       'fallback_src']
 
 
 def plan(tier):
@@ -105,6 +106,15 @@ def build(cfg, cur, other, bg_getter):
         ups = [Stream(asynchronous=False)]
     elif u == 'other':
         ups = [Stream(loop=other)]
+    elif u == 'fallback':
+        # an undeclared pipeline that the background-loop fallback of a loop-needing node has made a blocking one
+        s0 = Stream()
+        ups = [s0, s0.timed_window(1000)]
+    elif u == 'fallback_sib':
+        s0 = Stream()
+        ups = [s0.buffer(2), s0]           # the new node becomes a sibling of the loop-needing one
+    elif u == 'fallback_src':
+        ups = [Stream.from_periodic(lambda: 1, 1000)]      # undeclared source: blocking by fallback
     elif u == 'join':
         b0 = Stream(asynchronous=True)
         u0 = Stream()
@@ -180,9 +190,9 @@ def expectation(cfg, cur, other):
     u, t, a, lp = cfg
     needs = t in NEEDS_KW or t in NEEDS_NOKW or t in SOURCES
     u_loop = {'absent': None, 'unbound': None, 'chain': None, 'sibling': None, 'async': 'current', 'blocking': 'bg', 'other': 'other',
-              'join': 'current', 'join_rev': 'current'}[u]
+              'join': 'current', 'join_rev': 'current', 'fallback': 'bg', 'fallback_sib': 'bg', 'fallback_src': 'bg'}[u]
     u_async = {'absent': None, 'unbound': None, 'chain': None, 'sibling': None, 'async': True, 'blocking': False, 'other': None,
-               'join': True, 'join_rev': True}[u]
+               'join': True, 'join_rev': True, 'fallback': False, 'fallback_sib': False, 'fallback_src': False}[u]
     if a is not None and u_async is not None and a != u_async:
         return ('raise',)
     if lp != 'none' and u_loop is not None and lp != u_loop:
